@@ -2,10 +2,10 @@
 # runs the quick tier of every check sequentially; summary in $1 (default /tmp/wt/quick_all.log)
 out=${1:-/tmp/wt/quick_all.log}; : > $out
 cd /verif
-for c in C01 C02 C03 C04 C05 C06 C07 C08 C09 C10 C11 C12 C13 C14 C15 C16 C17 C18 C19 C20; do
+for c in ${ORDER:-C01 C02 C03 C04 C05 C06 C07 C08 C09 C10 C11 C12 C13 C14 C15 C16 C17 C18 C19 C20}; do
   s=$(date +%s)
-  /venv/bin/python -m vf.run $c --tier ${TIER:-quick} > /tmp/wt/qa_$c.out 2>&1
+  /venv/bin/python -m vf.run $c --tier ${TIER:-quick} > /tmp/wt/qa_${TIER:-quick}_$c.out 2>&1
   rc=$?
-  echo "$c exit $rc $(( $(date +%s) - s ))s viol_lines=$(grep -c '^VIOLATION' /tmp/wt/qa_$c.out) $(tail -1 /tmp/wt/qa_$c.out | cut -c1-160)" >> $out
+  echo "$c exit $rc $(( $(date +%s) - s ))s viol_lines=$(grep -c '^VIOLATION' /tmp/wt/qa_${TIER:-quick}_$c.out) $(tail -1 /tmp/wt/qa_${TIER:-quick}_$c.out | cut -c1-160)" >> $out
 done
 echo ALLDONE >> $out
